@@ -2871,3 +2871,141 @@ func c08r28(rc *core.RC) {
 		rc.Unknown("encoder/program-walks", token.NoPos, "found %d walks over a program by code type, fewer than the 3 confirmed by hand (IterNext, Dump, DumpDOT)", n)
 	}
 }
+
+// ---- C08.R29 a marshal method that takes a context is never handed a nil context ----
+
+// Marshal, MarshalIndent and the Encoder run without a context: RuntimeContext.Option.Context is nil then. A
+// MarshalJSON(context.Context) method that does what such methods are for (ctx.Value, handing ctx on to
+// MarshalContext, which asks it for the field query) dereferences the nil interface and panics inside a plain Marshal
+// of an acyclic value. Obligation, for every call of the MarshalJSON(context.Context) method of the marshalerContext
+// interface in package encoder: the argument is a local that, where it is nil, was given a context made by package
+// context (if arg == nil { arg = context.Background() }) in front of the call.
+func c08r29(rc *core.RC) { contextNotNil(rc, "encoder", "MarshalJSON", 1, 2) }
+
+// C06.R19 is the same obligation for the UnmarshalJSON(context.Context, []byte) calls of package decoder; there the
+// accepted form is also the one unmarshalJSONDecoder has: the local is assigned Option.Context where the ContextOption
+// flag is set and context.Background() otherwise.
+func c06r19(rc *core.RC) { contextNotNil(rc, "decoder", "UnmarshalJSON", 2, 4) }
+
+func contextNotNil(rc *core.RC, short, method string, nargs, min int) {
+	p := rc.P
+	n := 0
+	for _, fd := range p.Funcs(short) {
+		if fd.Body == nil {
+			continue
+		}
+		info := p.Info(fd)
+		var calls []*ast.CallExpr
+		ast.Inspect(fd.Body, func(m ast.Node) bool {
+			call, ok := m.(*ast.CallExpr)
+			if !ok || len(call.Args) != nargs {
+				return true
+			}
+			sel, isSel := core.Unparen(call.Fun).(*ast.SelectorExpr)
+			if !isSel || sel.Sel.Name != method {
+				return true
+			}
+			if t := info.TypeOf(call.Args[0]); t == nil || t.String() != "context.Context" {
+				return true
+			}
+			calls = append(calls, call)
+			return true
+		})
+		if len(calls) == 0 {
+			continue
+		}
+		cf := core.BuildCFGFor(fd, info)
+		rc.Touch(p.FuncName(fd))
+		for i, call := range calls {
+			n++
+			key := fmt.Sprintf("%s/%s(ctx)#%d context-not-nil", p.FuncName(fd), method, i+1)
+			obj := core.ObjOf(info, call.Args[0])
+			if obj == nil {
+				if f := core.FieldOf(info, core.Unparen(call.Args[0])); f != nil && f.Name() == "Context" {
+					rc.Bad(key, call.Pos(), "the context handed to %s(ctx) is %s as it is: nil under the entry points that take no context, so a method that uses its context panics on a nil interface in the middle of a plain call", method, core.Src(p.Fset, call.Args[0]))
+				} else {
+					rc.Unknown(key, call.Pos(), "the context argument %s is no local", core.Src(p.Fset, call.Args[0]))
+				}
+				continue
+			}
+			proven := ""
+			ast.Inspect(fd.Body, func(m ast.Node) bool {
+				ifs, ok := m.(*ast.IfStmt)
+				if !ok || proven != "" || ifs.End() > call.Pos() {
+					return true
+				}
+				be, isB := core.Unparen(ifs.Cond).(*ast.BinaryExpr)
+				if !isB || be.Op != token.EQL || core.ObjOf(info, be.X) != obj {
+					return true
+				}
+				if tv, has := info.Types[be.Y]; !has || !tv.IsNil() {
+					return true
+				}
+				for _, st := range ifs.Body.List {
+					as, isAs := st.(*ast.AssignStmt)
+					if !isAs || len(as.Lhs) != 1 || len(as.Rhs) != 1 || core.ObjOf(info, as.Lhs[0]) != obj {
+						continue
+					}
+					if c, isCall := core.Unparen(as.Rhs[0]).(*ast.CallExpr); isCall {
+						if cn := core.CalleeName(info, c); cn == "context.Background" || cn == "context.TODO" {
+							if cf.NodeBefore(ifs.Cond, call) {
+								proven = cn
+							}
+						}
+					}
+				}
+				return true
+			})
+			if proven == "" {
+				// every definition of the local is context.Background() or Option.Context under a test of the ContextOption flag
+				defs, good := 0, 0
+				ast.Inspect(fd.Body, func(m ast.Node) bool {
+					as, isAs := m.(*ast.AssignStmt)
+					if !isAs || len(as.Lhs) != 1 || len(as.Rhs) != 1 || core.ObjOf(info, as.Lhs[0]) != obj {
+						return true
+					}
+					defs++
+					rhs := core.Unparen(as.Rhs[0])
+					if c, isCall := rhs.(*ast.CallExpr); isCall {
+						if cn := core.CalleeName(info, c); cn == "context.Background" || cn == "context.TODO" {
+							good++
+						}
+						return true
+					}
+					if f := core.FieldOf(info, rhs); f != nil && f.Name() == "Context" {
+						for _, anc := range core.PathTo(fd.Body, as) {
+							ifs, isIf := anc.(*ast.IfStmt)
+							if !isIf || !strings.Contains(core.Src(p.Fset, ifs.Cond), "ContextOption") {
+								continue
+							}
+							// the branch on which the flag is set: `flags&ContextOption != 0` (then), its negation or `== 0` (else)
+							cnd, flip := stripNot(ifs.Cond)
+							setWhenTrue := !flip
+							if be, isB := core.Unparen(cnd).(*ast.BinaryExpr); isB && be.Op == token.EQL {
+								setWhenTrue = flip
+							}
+							inBody := ifs.Body.Pos() <= as.Pos() && as.End() <= ifs.Body.End()
+							inElse := ifs.Else != nil && ifs.Else.Pos() <= as.Pos() && as.End() <= ifs.Else.End()
+							if (setWhenTrue && inBody) || (!setWhenTrue && inElse) {
+								good++
+								break
+							}
+						}
+					}
+					return true
+				})
+				if defs >= 2 && defs == good {
+					proven = "context.Background"
+				}
+			}
+			if proven != "" {
+				rc.OK(key, call.Pos(), "%s is the call's context where one was given and %s() otherwise", obj.Name(), proven)
+			} else {
+				rc.Bad(key, call.Pos(), "the context handed to %s(ctx) is Option.Context as it is: nil under the entry points that take no context, so a method that uses its context (ctx.Value, handing it on to MarshalContext / UnmarshalContext) panics on a nil interface in the middle of a plain call", method)
+			}
+		}
+	}
+	if n < min {
+		rc.Unknown(short+"/"+method+"(ctx)-calls", token.NoPos, "found %d calls of %s(context.Context …), fewer than the %d confirmed by hand", n, method, min)
+	}
+}
